@@ -86,6 +86,97 @@ func vhDefBackrefZero() Rules {
 	}
 }
 
+// vhC09Interleave: two lexers of ONE definition are advanced in an order
+// chosen by the solver (one symbolic bit per step: which lexer calls Next),
+// over two symbolic inputs; each lexer must deliver exactly the stream a
+// fresh definition delivers for its input when used alone.  The schedule is a
+// symbolic variable, so the verdict covers every interleaving of the Next
+// calls within the bound (Next is the unit of interleaving; what happens
+// inside one Next is covered by the frame condition).
+func vhLexStep(l Lexer, toks *[]Token, errAt *int, done *bool) {
+	t, err := l.Next()
+	if err != nil {
+		*done = true
+		if le, ok := err.(*Error); ok {
+			*errAt = le.Pos.Offset
+		} else {
+			*errAt = -2
+		}
+		*toks = nil
+		return
+	}
+	*toks = append(*toks, t)
+	if t.EOF() {
+		*done = true
+	}
+}
+
+func vhLexAllNamed(def *StatefulDefinition, file, in string) ([]Token, int) {
+	lex, _ := def.LexString(file, in)
+	toks, err := ConsumeAll(lex)
+	if err != nil {
+		if le, ok := err.(*Error); ok {
+			return nil, le.Pos.Offset
+		}
+		return nil, -2
+	}
+	return toks, -1
+}
+
+func vhC09Interleave(rules Rules, n1, n2 int, a, b, c byte) {
+	n := n1
+	if n2 > n {
+		n = n2
+	}
+	def, err := New(rules)
+	vAssert(err == nil, "catalogue definition must be accepted by New")
+	vFreeze(def)
+	in1 := vString("first", vChoose("len1", n1+1))
+	in2 := vString("second", vChoose("len2", n2+1))
+	if a != 0 {
+		vhAlphabet3(in1, a, b, c)
+		vhAlphabet3(in2, a, b, c)
+	}
+	l1, _ := def.LexString("f", in1)
+	l2, _ := def.LexString("g", in2)
+	var t1, t2 []Token
+	e1, e2 := -1, -1
+	d1, d2 := false, false
+	switched := 0
+	last := 0
+	for steps := 0; !(d1 && d2); steps++ {
+		vAssert(steps <= 2*(n+2), "C09: interleaved lexers do not finish")
+		first := !d1 && (d2 || vBool("sched"))
+		if first {
+			vhLexStep(l1, &t1, &e1, &d1)
+			if last == 2 {
+				switched++
+			}
+			last = 1
+		} else {
+			vhLexStep(l2, &t2, &e2, &d2)
+			if last == 1 {
+				switched++
+			}
+			last = 2
+		}
+	}
+	fresh1, _ := New(rules)
+	r1, x1 := vhLexAllNamed(fresh1, "f", in1)
+	fresh2, _ := New(rules)
+	r2, x2 := vhLexAllNamed(fresh2, "g", in2)
+	vhSameLex(t1, e1, r1, x1, "C09: interleaved lexer 1 differs from a fresh definition used alone")
+	vhSameLex(t2, e2, r2, x2, "C09: interleaved lexer 2 differs from a fresh definition used alone")
+	if switched >= 2 {
+		vReach("interleaved")
+	}
+}
+
+func VH_C09_Interleave_PushPop() { vhC09Interleave(vhDefPushPop(), 2, 2, 0, 0, 0) }
+func VH_C09_Interleave_Return()  { vhC09Interleave(vhDefReturn(), 2, 2, 0, 0, 0) }
+func VH_C09_Interleave_Backref() { vhC09Interleave(vhDefBackref(), 4, 3, '<', 'a', '>') }
+func VH_C09_Interleave_Zero()    { vhC09Interleave(vhDefBackrefZero(), 3, 3, 'a', 'b', 'b') }
+
 func VH_C09_Frame_Literal()       { vhC09Frame(vhDefLiteral(), false) }
 func VH_C09_Frame_PushPop()       { vhC09Frame(vhDefPushPop(), false) }
 func VH_C09_Frame_Return()        { vhC09Frame(vhDefReturn(), false) }
